@@ -451,7 +451,7 @@ def warping_paths(s1, s2, psi_neg=True, keep_int_repr=False, **kwargs):
     cost, result_fn, ival_fn = innerdistance.inner_dist_fns(s.inner_dist, use_ndim=s.use_ndim)
     r, c = len(s1), len(s2)
     if s.adj_max_length_diff is not None and abs(r - c) > s.adj_max_length_diff:
-        return inf
+        return inf, np.full((r + 1, c + 1), inf)
     psi_1b, psi_1e, psi_2b, psi_2e = s.split_psi()
     dtw = np.full((r + 1, c + 1), inf)
     # dtw[0, 0] = 0
